@@ -1,6 +1,6 @@
 SPECIFICATION Spec
 CONSTANTS
-  Alphabet = {"gt", "eq", "bang", "plus", "star", "qmark", "dot", "digit", "lt", "dash", "amp", "slash"}
+  Alphabet = {"gt", "eq", "bang", "plus", "star", "qmark", "dot", "digit0", "digit8", "lt", "dash", "amp", "slash"}
   MaxLen = 4
   Emit = TRUE
   ReMode = "never"
